@@ -16,9 +16,9 @@ P
   run=${run//$'\x1f'/ }
   demo=$(ls "$d" | grep -v 'meta.json\|patch.diff' | head -1)
   out=$(tools/seedeval.sh "$d/patch.diff" "$d/$demo" "$dest" "$run" ${checks//,/ } 2>&1)
-  caught=$(grep -c "CAUGHT" <<<"$out"); want=$(tr ',' '\n' <<<"$checks" | wc -l)
+  caught=$(grep -c "CAUGHT" <<<"$out"); want=$(tr ',' '\n' <<<"$checks" | grep -c .)
   facts=$(grep -c "SUITE-WITH-PATCH: passes\|DEMO-WITH-PATCH: fails\|DEMO-WITHOUT-PATCH: passes" <<<"$out")
-  if [ "$caught" -eq "$want" ] && [ "$facts" -eq 3 ]; then ok=$((ok+1)); echo "$sid: ok (caught by $checks)"; else bad=$((bad+1)); echo "$sid: PROBLEM (caught $caught of $want; facts $facts/3)"; grep "CHECK\|UNEXPECTED\|FAILS" <<<"$out"; fi
+  if [ "$caught" -eq "$want" ] && [ "$facts" -eq 3 ]; then ok=$((ok+1)); echo "$sid: ok (caught by ${checks:-nothing in this tier: see meta.json})"; else bad=$((bad+1)); echo "$sid: PROBLEM (caught $caught of $want; facts $facts/3)"; grep "CHECK\|UNEXPECTED\|FAILS" <<<"$out"; fi
 done
 echo "seedall: ok=$ok problem=$bad"
 [ $bad -eq 0 ]
